@@ -609,6 +609,34 @@ func checkC02(c c02Case, ctx *vCtx) *vFailure {
 func genC02(t *rapid.T) c02Case {
 	layout := []string{"", "", "2006-01-02", "02.01.2006", "2 Jan 2006"}[rapid.IntRange(0, 4).Draw(t, "layout")]
 	s := vGenScenario(t, vScenOpts{MinDays: 1, MaxDays: 5, DateLayout: layout})
+	if len(s.Log.Recs) > 0 && rapid.IntRange(0, 4).Draw(t, "noteheavy") == 0 {
+		// a day with a food mentioned twice and at least as many notes as entries (notes are no part of what is merged)
+		r := &s.Log.Recs[rapid.IntRange(0, len(s.Log.Recs)-1).Draw(t, "noteheavyday")]
+		var first *vLine
+		for i := range r.Lines {
+			if r.Lines[i].Kind == vkEntry {
+				first = &r.Lines[i]
+				break
+			}
+		}
+		if first != nil {
+			again := *first
+			again.Num = []string{"1", "2", "0.5"}[rapid.IntRange(0, 2).Draw(t, "noteheavynum")]
+			r.Lines = append(r.Lines, again)
+			n := 0
+			for _, l := range r.Lines {
+				if l.Kind == vkEntry {
+					n++
+				}
+			}
+			for k := 0; k < n+rapid.IntRange(0, 2).Draw(t, "noteheavyextra"); k++ {
+				at := rapid.IntRange(0, len(r.Lines)).Draw(t, "noteheavyat")
+				note := vLine{Kind: vkTNote, Text: fmt.Sprintf("remark %d", k), L: vLayout{Indent: "  ", EOL: "\n"}}
+				r.Lines = append(r.Lines[:at], append([]vLine{note}, r.Lines[at:]...)...)
+			}
+			s.Log.NoFinalNL = false
+		}
+	}
 	return c02Case{S: s, Bin: rapid.IntRange(0, 39).Draw(t, "bin") == 0, Layout: layout}
 }
 
